@@ -36,6 +36,10 @@ class RefError(Exception):
         self.ident = ident
 
 
+# set by a check whose programs never use a label beyond 0o177777 by value: label values are then plain arithmetic (base + offset)
+PAST_END_OK = False
+
+
 class Unmodelled(Exception):
     """The program left the fragment whose meaning the reference fixes; the case is dropped (counted), never judged."""
 
@@ -903,7 +907,7 @@ class Ref:
             else:
                 out += b"\xAA" * seg.size
         self.image = bytes(out)
-        if self.base + len(self.image) > 0x10000:
+        if self.base + len(self.image) > 0x10000 and not PAST_END_OK:
             raise Unmodelled("image runs past the end of the address space")
         return self
 
